@@ -359,7 +359,7 @@ def trig_multiword_in_pattern(case, v):
 
 def trig_vs_as_key(case, v):
     import re as _re
-    return bool(_re.search(r"(^|\n)\s*vs::", _c1_of(v)))
+    return bool(_re.search(r"(^|\n)\s*vs::?", _c1_of(v)))      # `vs::value` or the block form `vs:`
 
 
 TRIGGERS = {"multiword_in_pattern": trig_multiword_in_pattern, "vs_as_key": trig_vs_as_key}
